@@ -297,6 +297,10 @@ def gen_string(dt, rng, n):
     for s in ['é', 'É', 'ÿ', 'Àb'] + (['ǅ', 'Σας', 'İ', 'ß', 'ŉ', '\U00010400', 'Ω'] if 'u' in flags else []):
         if maxlen == 0 or len(s) <= maxlen:
             items.append(Item(s, 'skip', 'non-ascii', expected=None))
+    # strings the gate already accepts as they are: case folding has nothing to do on them, they denote themselves
+    for s in ['ß', 'µ', 'straße', 'µm', 'ÿ', 'é', 'ſ', 'ŉ', 'ǰ', 'ΐ', 'ﬁ', 'ς', 'ı', 'À', 'ÀÉ', 'ǅ', 'ᾈ', 'İ', 'ẞ', 'Σ', 'Ω']:
+        if maxlen == 0 or len(s) <= maxlen:
+            items.append(Item(s, 'valid-is-fixed', 'valid-non-ascii', expected=None))
     for v in (5, -17, True, None):
         if maxlen == 0 or len(str(v)) <= maxlen:
             items.append(Item(v, 'skip', 'non-str', expected=fold(str(v))))
@@ -741,6 +745,14 @@ def judge(ck, gate, dt, it, obs):
         if it.dom == 'in' and not gate.accepts(dt, out):
             fail('gate-rejects-normalised/%s/%s' % (fam, it.note), 'normalised to %r which the validator rejects' % out)
             return
+    elif it.dom == 'valid-is-fixed':
+        case = dt.split(':')[2]
+        already = {'mc': it.value, 'lc': it.value.lower(), 'uc': it.value.upper()}[case] == it.value
+        if already and gate.accepts(dt, it.value):
+            ck.dist('valid-string-fixed-point')
+            if out != it.value:
+                fail('valid-value-changed/%s/%s' % (fam, it.note), 'the gate accepts the input as it is; normalised to %r' % (out,))
+                return
     elif it.dom == 'out':
         if out is not None and gate.accepts(dt, out):
             fail('laundered/%s/%s' % (fam, it.note), 'input does not denote a value of the type, normalised to the valid %r' % out)
